@@ -205,6 +205,17 @@ CHECKS = {
         note="The property is by definition about javac's verdict; the spec contributes the oracle contract and the schedules, not a model of Java. "
              "javac 17 is trusted.",
     ),
+    "C12": dict(
+        category="exploration",
+        technique="expected occurrence counts of declaration facts computed in TLA+ from the program's walk (HInventory); real translators; "
+                  "textual probes (one pattern per fact kind and language) counted by the harness; TLC compares expectation and measurement",
+        text="Generated, erased and overwritten programs x 4 languages: every class declared once; function headers (Kotlin, Scala); typed / "
+             "untyped variable and field declarations (the presence bit of every erased or overwritten annotation); inferable constructor calls "
+             "without explicit type arguments; every string literal; balanced brackets.",
+        design_ref="DESIGN.md §5 C12, Appendix C",
+        note="The textual patterns are trusted code. Not judged: function headers and typed-variable counts for Java/Groovy, explicit type arguments "
+             "of generic method calls, modifiers, supertypes and bounds (the count-based inventory does not parse headers).",
+    ),
 }
 
 NOT_YET = "check not built yet (work in progress in this session; see DESIGN.md §10 for the order of work)"
